@@ -5,6 +5,9 @@ import TeakraModel.Exec.Mma
 import TeakraModel.Exec.MinMax
 import TeakraModel.Exec.Arith
 import TeakraModel.Exec.Control
+import TeakraModel.Exec.Stack
+import TeakraModel.Exec.Mul
+import TeakraModel.Exec.Modr
 /-! Aggregates the instruction handler families (`TeakraModel/Exec/*.lean`). -/
 namespace Teakra
 /-- An opcode outside the part of the handler set that is modelled so far. -/
